@@ -16,6 +16,8 @@ RULE = (
     "with a square well-conditioned Jacobian (cond < 1e6) every hedged measure is 0 (1e-8 x scale), with the pseudo-inverse the residual satisfies the normal equations. "
     "close: ClosePositionsAfterDates with close dates inside/before/after the data: position 0 at the end of every date >= close date, never reopened with SelectActive before weighting. "
     "roll: RollPositionsAfterDates: on the first run at/after the roll date the target gains factor x position and the source is flat, exactly once. "
+    "close_roll: ClosePositionsAfterDates, RollPositionsAfterDates and SelectActive on one strategy (either order), rolled securities maturing later and possibly bought again by weights that ignore the selection: "
+    "probes after each algo check that a matured position is gone right after the closing algo, rolls convert once, SelectActive leaves exactly the names neither closed nor rolled, and perm['closed'] / perm['rolled'] hold exactly what each algo has done. "
     "non-trivial = >= 2 securities with non-zero risk / a hedge actually traded / a position actually closed / rolled. distinct = distinct spec hashes."
 )
 ASSUMPTIONS = ["close/roll algos run on every date (as their docstrings require)", "hedge instruments have a finite positive price on every date they are traded"]
@@ -408,13 +410,148 @@ def case_roll(ctx, spec):
     return {"nontrivial": did, "labels": ["rolled=%d" % len(rolled)]}
 
 
+# ---- close + roll + SelectActive on one strategy ----------------------------------------------------------
+@st.composite
+def close_roll_spec(draw):
+    import datetime as dt
+
+    ds = draw(gen.dates(5, 12, kinds=("bday", "daily")))
+    n = len(ds)
+    nt = draw(st.integers(3, 5))
+    tickers = gen.TICKERS[:nt]
+    pr = {t: draw(gen.price_path(n, vol=0.02, decimals=4)) for t in tickers}
+    sources = draw(st.lists(st.sampled_from(tickers[:-1]), min_size=1, max_size=nt - 1, unique=True))
+    rolls = {}
+    cd = {}
+    for t in sources:
+        k = draw(st.integers(1, n - 2))
+        later = [x for x in tickers if x > t]
+        rolls[t] = {"date": ds[k][:10], "target": draw(st.sampled_from(later)), "factor": draw(st.sampled_from([1.0, 0.5, 2.0]))}
+        if draw(st.integers(0, 3)) > 0:
+            # the rolled security matures later than its first permitted roll date (on-the-run switch before maturity)
+            k2 = draw(st.integers(k + 1, n))
+            cd[t] = ds[k2][:10] if k2 < n else (dt.datetime.fromisoformat(ds[-1]) + dt.timedelta(days=4)).strftime("%Y-%m-%d")
+    for t in tickers:
+        if t not in rolls and draw(st.integers(0, 2)) == 0:
+            cd[t] = ds[draw(st.integers(1, n - 1))][:10]
+    if not cd:
+        t = draw(st.sampled_from(tickers))
+        cd[t] = ds[draw(st.integers(1, n - 1))][:10]
+    raw = [draw(st.integers(1, 5)) for _ in tickers]
+    w = {k: round(r / float(sum(raw)) * 0.9, 4) for k, r in zip(tickers, raw)}
+    # 'specified': the weights name every ticker whatever was selected, so a rolled security is bought again and still has to be closed at
+    # its own close date; 'equal': weights follow SelectActive, so closed and rolled names are never held again
+    mode = draw(st.sampled_from(["specified", "equal"]))
+    weigh = ["WeighSpecified", {"weights": w}] if mode == "specified" else ["WeighEqually", {}]
+    first = draw(st.sampled_from(["close", "roll"]))
+    head = [["ClosePositionsAfterDates", {"frame": "closes"}], ["Probe", {"key": "c20cr", "tag": "close"}], ["RollPositionsAfterDates", {"frame": "rolls"}], ["Probe", {"key": "c20cr", "tag": "roll"}]]
+    if first == "roll":
+        head = head[2:] + head[:2]
+    stack = head + [["SelectAll", {}], ["SelectActive", {}], ["Probe", {"key": "c20cr", "tag": "selected"}], weigh, ["Rebalance", {}], ["Probe", {"key": "c20cr", "tag": "end", "run_always": True}]]
+    rn = sorted(rolls)
+    cn = sorted(cd)
+    spec = {
+        "dates": ds,
+        "prices": pr,
+        "rng_seed": 0,
+        "frames": {
+            "rolls": {"kind": "table", "index": rn, "cols": {"date": [rolls[t]["date"] for t in rn], "target": [rolls[t]["target"] for t in rn], "factor": [rolls[t]["factor"] for t in rn]}, "date_cols": ["date"]},
+            "closes": {"kind": "table", "index": cn, "cols": {"date": [cd[t] for t in cn]}, "date_cols": ["date"]},
+        },
+        "additional": ["rolls", "closes"],
+        "integer_positions": False,
+        "initial_capital": 1e6,
+        "fee": {"kind": "none"},
+        "rolls": rolls,
+        "close_dates": cd,
+        "mode": mode,
+        "tree": {"name": "root", "kind": "Strategy", "algos": stack, "children": list(tickers)},
+    }
+    return spec
+
+
+def case_close_roll(ctx, spec):
+    """The three algos cooperate through perm['closed'] / perm['rolled'] (documented 'Sets:'): each set holds exactly what its algo has
+    done so far, a matured position is gone right after ClosePositionsAfterDates whatever happened to the security before (rolled and
+    bought again included), rolls convert once, and SelectActive drops exactly the union."""
+    bt = ctx.bt
+    holder = {}
+    ev = []
+
+    def cb(algo, target):
+        if target is holder.get("root"):
+            ev.append((algo.tag, target.now, {c: ch.position for c, ch in target.children.items()}, set(target.perm.get("closed", set())), set(target.perm.get("rolled", set())), list(target.temp.get("selected", []))))
+
+    interp.Probe.registry["c20cr"] = cb
+    base = {k: v for k, v in spec.items() if k not in ("rolls", "close_dates", "mode")}
+    try:
+        b = interp.mk_backtest(bt, base)
+        holder["root"] = b.strategy
+        with contextlib.redirect_stdout(io.StringIO()):
+            try:
+                b.run()
+            except Exception as e:
+                raise Violation("run raised %s: %s" % (type(e).__name__, str(e)[:200]), signature="c20:closeroll-raises:" + bt_frame_signature(e))
+    finally:
+        interp.Probe.registry.pop("c20cr", None)
+    rolls, cd = spec["rolls"], spec["close_dates"]
+    o_closed, o_rolled = set(), set()
+    prev = {}  # positions seen at the previous probe
+    exists = set()  # children existing when an algo is called (all declared eagerly here)
+    closed_after_roll = False
+    rolled_any = False
+    for tag, now, pos, p_closed, p_rolled, selected in ev:
+        if tag == "close":
+            due = [t for t in sorted(cd) if t not in o_closed and t in pos and pd.Timestamp(cd[t]) <= now]
+            for t in due:
+                o_closed.add(t)
+                if t in o_rolled and abs(prev.get(t, 0.0)) > 0:
+                    closed_after_roll = True
+            for t in o_closed:
+                if t in due and abs(pos.get(t, 0.0)) > 1e-9:
+                    raise Violation("%s: right after ClosePositionsAfterDates %s still holds %r although its close date %s has passed (held before the call: %r, rolled earlier: %s)" % (now, t, pos[t], cd[t], prev.get(t), t in o_rolled), signature="c20:closeroll-not-closed")
+            for t in pos:
+                if t not in due and abs(pos[t] - prev.get(t, 0.0)) > 1e-9 * max(1.0, abs(prev.get(t, 0.0))):
+                    raise Violation("%s: ClosePositionsAfterDates changed %s from %r to %r (close date %s, already closed %s)" % (now, t, prev.get(t, 0.0), pos[t], cd.get(t), t in o_closed), signature="c20:closeroll-other")
+        elif tag == "roll":
+            due = [t for t in sorted(rolls) if t not in o_rolled and t in pos and pd.Timestamp(rolls[t]["date"]) <= now]
+            exp = dict(prev)
+            for t in due:
+                o_rolled.add(t)
+                exp[t] = 0.0
+            for t in due:
+                q = prev.get(t, 0.0)
+                exp[rolls[t]["target"]] = exp.get(rolls[t]["target"], 0.0) + rolls[t]["factor"] * q
+                if q != 0:
+                    rolled_any = True
+            for c in set(exp) | set(pos):
+                if abs(pos.get(c, 0.0) - exp.get(c, 0.0)) > 1e-9 * max(1.0, abs(exp.get(c, 0.0))):
+                    raise Violation("%s: after RollPositionsAfterDates position of %s is %r, expected %r (before %s)" % (now, c, pos.get(c, 0.0), exp.get(c, 0.0), prev), signature="c20:closeroll-roll")
+        elif tag == "selected":
+            exp_sel = [t for t in spec["tree"]["children"] if t not in o_closed and t not in o_rolled]
+            if sorted(selected) != sorted(exp_sel):
+                raise Violation("%s: SelectActive left %s, expected %s (closed %s, rolled %s)" % (now, selected, exp_sel, sorted(o_closed), sorted(o_rolled)), signature="c20:closeroll-selected")
+        elif tag == "end" and spec["mode"] == "equal":
+            for t in o_closed | o_rolled:
+                if abs(pos.get(t, 0.0)) > 1e-9:
+                    raise Violation("%s: %s was %s earlier and is held again (%r) although the weights follow SelectActive" % (now, t, "closed" if t in o_closed else "rolled", pos[t]), signature="c20:closeroll-reopened")
+        # the documented bookkeeping sets hold exactly what each algo has done so far (checked once both have run on this date)
+        if tag == "selected":
+            if p_closed != o_closed:
+                raise Violation("%s: perm['closed'] is %s but ClosePositionsAfterDates has closed %s" % (now, sorted(p_closed), sorted(o_closed)), signature="c20:closeroll-perm-closed")
+            if p_rolled != o_rolled:
+                raise Violation("%s: perm['rolled'] is %s but RollPositionsAfterDates has rolled %s" % (now, sorted(p_rolled), sorted(o_rolled)), signature="c20:closeroll-perm-rolled")
+        prev = pos
+    return {"nontrivial": rolled_any and len(o_closed) > 0, "labels": [spec["mode"]] + (["closed_after_roll_and_rebuy"] if closed_after_roll else [])}
+
+
 def prev_children(prev, t):
     # the algo only considers securities that exist as children when it runs
     return prev
 
 
-SUBS = {"risk": case_risk, "hedge": case_risk, "close": case_close, "roll": case_roll}
-STRATS = {"risk": lambda: risk_spec(hedge=False), "hedge": lambda: risk_spec(hedge=True), "close": close_spec, "roll": roll_spec}
+SUBS = {"risk": case_risk, "hedge": case_risk, "close": case_close, "roll": case_roll, "close_roll": case_close_roll}
+STRATS = {"risk": lambda: risk_spec(hedge=False), "hedge": lambda: risk_spec(hedge=True), "close": close_spec, "roll": roll_spec, "close_roll": close_roll_spec}
 
 
 def shard(ctx):
@@ -422,3 +559,4 @@ def shard(ctx):
     run_sub(ctx, "hedge", risk_spec(hedge=True), lambda s: case_risk(ctx, s), ctx.n(800, 12000))
     run_sub(ctx, "close", close_spec(), lambda s: case_close(ctx, s), ctx.n(640, 10000))
     run_sub(ctx, "roll", roll_spec(), lambda s: case_roll(ctx, s), ctx.n(640, 10000))
+    run_sub(ctx, "close_roll", close_roll_spec(), lambda s: case_close_roll(ctx, s), ctx.n(640, 10000))
